@@ -369,6 +369,12 @@ def run(gen, seed, n_ops=60):
                 compare("C10", "after idle time")
             else:  # cycle
                 state["last_push"] = None
+                phase = (loop.time() - life["t0"]) % 300.0
+                if slow and (phase < 1.0 or phase > 299.0):
+                    # (a heartbeat answer that changes the version is being handed to a slow
+                    # subscriber right now: let the application's own callback finish first)
+                    await asyncio.sleep(3.0)
+                    await settle()
                 t0 = loop.time()
                 await w.at.shutdown()
                 for _ in range(10):
